@@ -1,7 +1,7 @@
 (* Entry points of the correspondence check: one call per case record written by the
    harness.  Everything here is executable; nothing is proved in this file. *)
 From VJ Require Import Model.Str Model.Json Model.Ast Model.State Model.Util Model.Text
-  Model.Directive Model.Lower Model.Visitor Model.Types Model.Options Spec.Plain Spec.Pragma Spec.OutViews.
+  Model.Directive Model.Lower Model.Visitor Model.Types Model.Options Spec.Plain Spec.Pragma Spec.OutViews Lemmas.NodeInd.
 From VJ Require Import Gen.Tables.
 
 Definition jfield_d (k : String.string) (j : jv) : jv :=
@@ -39,7 +39,7 @@ Definition env_of (c : jv) : env :=
 Definition model_run (c : jv) : jv * st :=
   let E := env_of c in
   let '(out, s) :=
-    transform_module E (hook_call E) (hook_declarator E) (register_ts_decl E)
+    transform_module E (hook_call E) (hook_declarator E) (collect_ts_decls E subs)
                      (dec (jfield_d "input" c)) in
   (fst (canon (enc out) []), s).
 
